@@ -8,6 +8,7 @@ from pegen import grammar
 from pegen.build import build_parser
 from pegen.grammar import (
     Alt,
+    Forced,
     Gather,
     Item,
     NamedItem,
@@ -66,6 +67,8 @@ class XonshCallMakerVisitor(PythonCallMakerVisitor):
             len(node.alts) <= 1
             or (any(a.action for a in node.alts))
             or (any(len(a.items) > 1 for a in node.alts))
+            # the argument of expect_forced(...) would be evaluated while the argument tuple is built
+            or (any(isinstance(a.items[0].item, Forced) for a in node.alts))
         ):
             return None
         alt_funcs = itertools.chain.from_iterable(a.items for a in node.alts)
